@@ -64,12 +64,43 @@ def check_convert(run, pkg):
             pts = box = None
             for e in ap:
                 v = e.data["call"][2][1]
-                if v[0] == "call" and "Box" in str(v[1]):
+                if any(x[0] == "call" and isinstance(x[1], str) and "Box" in x[1] for x in walk(v)):
                     box = v
                 else:
                     pts = v
-            okb = eqv(box[2][0], ("attr", snap, "boxlength")) if (box is not None and box[1].endswith("from_box") and len(box[2]) == 1) else None
-            run.ob("R-ALG", fq, f"{tag}:box", okb, "the tessellation box is built from the frame's box lengths", show(box)[:60] if box else "?", witness=None if okb else "box of another frame / wrong lengths", loc=fi.loc(), sound=True)
+            # every way the appended box can be produced (arms of conditionals, values carried over from an earlier iteration)
+            arms = []
+
+            def collect(x, invariant_test=True):
+                if x[0] == "phi":
+                    # a refresh test against a loop-invariant reference cannot tell "same as the previous frame" from "same as
+                    # the reference"; one that involves a carried value (the previous frame's lengths) may be a correct cache
+                    inv = not any(y[0] == "mu" for y in walk(x[1]))
+                    collect(x[2], inv)
+                    collect(x[3], inv)
+                elif x[0] == "mu":
+                    arms.append(("carried" if invariant_test else "carried?", x))
+                    if len(x) > 2 and isinstance(x[2], tuple) and x[2] and isinstance(x[2][0], str):
+                        collect(x[2])       # its value on entry to the loop
+                else:
+                    arms.append(("value", x))
+            if box is not None:
+                collect(box)
+            verdicts = []
+            for kind_, x in arms:
+                if kind_ == "carried":
+                    verdicts.append(False)
+                elif kind_ == "carried?":
+                    verdicts.append(None)
+                elif x[0] == "call" and isinstance(x[1], str) and x[1].endswith("from_box") and len(x[2]) == 1:
+                    verdicts.append(eqv(x[2][0], ("attr", snap, "boxlength")))
+                else:
+                    verdicts.append(None)
+            okb = tri(*verdicts) if verdicts else None
+            carried = any(k_ == "carried" for k_, _ in arms) or any(v_ is False for v_ in verdicts)
+            run.ob("R-ALG", fq, f"{tag}:box", okb, "the tessellation box of every frame is built from that frame's own box lengths, on every path", show(box)[:90] if box else "?",
+                   witness=None if okb else ("a box built for another frame is reused: cells L0, L1, L0 - the third frame keeps the box of the second (areas / volumes no longer sum to the frame's cell)"
+                                             if carried else "box of another frame / wrong lengths"), loc=fi.loc(), sound=True)
             core = pts
             padded = False
             if core is not None and core[0] == "call" and core[1] == "numpy.hstack" and core[2][0][0] == "tuple" and len(core[2][0][1]) == 2:
